@@ -107,6 +107,48 @@ Theorem C14_reads_exactly_exception : forall f p fc mbap,
 Proof. exact reads_exactly_exception. Qed.
 Print Assumptions C14_reads_exactly_exception.
 
+(* end to end: a request of the quantifier outside the delimited defects, a stream framing, the
+   normal reply the spec defines: the client's two reads take exactly that frame *)
+Theorem C14_end_to_end : forall q f fc mbap p,
+  request_ok q = true -> known_defect q = false -> predicting q = true ->
+  stream_framing f = true -> 0 <= fc < 128 -> spec_response_pdu_len q = Some p ->
+  exists m r,
+    recv_plan f (expected_response_length f (predicted_pdu_size (class_of q) (attrs_of q)))
+              (spec_adu_len f p) fc mbap
+      = ([Some m; Some r], RecvDone (Some (spec_adu_len f p)))
+    /\ 0 < m /\ 0 <= r /\ m + r = spec_adu_len f p.
+Proof. exact end_to_end. Qed.
+Print Assumptions C14_end_to_end.
+
+(* TLS framing: a normal reply is taken whole by the first read ... *)
+Theorem C14_tls_reads_exactly : forall p fc mbap,
+  1 <= p ->
+  recv_plan FTls (expected_response_length FTls (Some p)) (spec_adu_len FTls p) fc mbap
+  = ([Some p; Some 0], RecvDone (Some p)).
+Proof. exact tls_reads_exactly. Qed.
+Print Assumptions C14_tls_reads_exactly.
+
+(* ... but an exception reply (2 bytes) is not: the client asks for the p predicted bytes at
+   once, gets 2, and raises InvalidMessageReceivedException (finding F-C14-tls-exception-reply) *)
+Theorem C14_tls_exception_refuted : forall p fc mbap,
+  2 < p ->
+  recv_plan FTls (expected_response_length FTls (Some p)) (spec_adu_len FTls exception_pdu_len) fc mbap
+  = ([Some p], RecvRaises InvalidMessageExc)
+  /\ spec_adu_len FTls exception_pdu_len < p.
+Proof. exact tls_exception_refuted. Qed.
+Print Assumptions C14_tls_exception_refuted.
+
+(* binary framing with esc > 0 escaped data bytes: the client asks for esc bytes fewer than
+   the frame holds (finding F-C14-binary-escape) *)
+Theorem C14_binary_escape_refuted : forall p esc fc mbap,
+  1 <= p -> 0 < esc -> 0 <= fc < 128 ->
+  asked_sum (fst (recv_plan FBinary (expected_response_length FBinary (Some p))
+                            (spec_adu_len FBinary p + esc) fc mbap))
+  = Some (spec_adu_len FBinary p)
+  /\ spec_adu_len FBinary p < spec_adu_len FBinary p + esc.
+Proof. exact binary_escape_refuted. Qed.
+Print Assumptions C14_binary_escape_refuted.
+
 Example C14_nonvacuous :
   request_ok (QReadCoils 19) = true /\ known_defect (QReadCoils 19) = false /\ predicting (QReadCoils 19) = true
   /\ predicted_pdu_size (class_of (QReadCoils 19)) (attrs_of (QReadCoils 19)) = Some 5
